@@ -15,7 +15,7 @@ RELEVANT = None
 def relevant_names():
     global RELEVANT
     if RELEVANT is None:
-        from rnapolis import tertiary as T
+        from . import chem as T
         names = {"C1'", "N9", "N1", "N7", "N3", "C4", "O2", "C6", "C2"}
         for d in (T.BASE_ATOMS, T.BASE_DONORS, T.BASE_ACCEPTORS):
             for v in d.values():
@@ -80,10 +80,15 @@ def order_lit(order):
     return "[" + "; ".join(f"({i}%nat, {j}%nat)" for i, j in order) + "]"
 
 
-def structures(ctx, kinds=("corpus", "moved", "jitter", "reversed", "thin"), big=False):
+# atoms of a base that the base normal does not need: removing one of them leaves every decision defined
+_SPARE = {"A": ["C2", "C5", "C6", "N6", "C8"], "G": ["C2", "N2", "C5", "C6", "O6", "C8"], "C": ["C2", "N3", "N4", "C5", "C6"],
+          "U": ["C2", "N3", "O4", "C5", "C6"], "T": ["C2", "N3", "O4", "C5", "C6", "C7"]}
+
+
+def structures(ctx, kinds=("corpus", "moved", "jitter", "reversed", "thin", "thin-base"), big=False):
     """yield (name, kind, Structure3D) with grid-snapped coordinates"""
     rng = ctx.rng
-    files = ["1DFU_1_M-N.cif", "6INQ.cif", "4WTI_1_T-P.cif", "1HMH_1_E.cif", "1ehz-assembly-1.cif"]
+    files = ["1DFU_1_M-N.cif", "6INQ.cif", "4WTI_1_T-P.cif", "1HMH_1_E.cif", "1ehz-assembly-1.cif", "4qln.cif"]   # 4qln: an incomplete base as deposited, G Hoogsteen pairs through C8
     if big or not ctx.quick:
         files += ["1E7K_1_C.cif", "184D.cif", "488d.pdb"]
     if not ctx.quick:
@@ -108,3 +113,12 @@ def structures(ctx, kinds=("corpus", "moved", "jitter", "reversed", "thin"), big
             victim = rng.randrange(len(base.residues))
             yield name, "thinned", geo.rebuild(base, keep_res=lambda i, r: i not in drop_res,
                                                 keep_atom=lambda r, a: not (a.name in drop_atoms and r is base.residues[victim]))
+        if "thin-base" in kinds:
+            # incomplete bases: every third residue loses one base atom that is not needed for its normal (centroids of incomplete
+            # bases, contacts through the remaining atoms)
+            gone = {}
+            for i, r in enumerate(base.residues):
+                spare = _SPARE.get(r.one_letter_name)
+                if spare and i % 3 == rng.randrange(3):
+                    gone[id(r)] = rng.choice(spare)
+            yield name, "thin-base", geo.rebuild(base, keep_res=lambda i, r: True, keep_atom=lambda r, a: gone.get(id(r)) != a.name)
